@@ -123,6 +123,9 @@ def load_case(ctx: Ctx):
         # consequence of the controller's instruction, not of any property here: hostile runs keep the default ranking.
         spec = dict(spec)
         spec["dispatcher"] = dict(spec["dispatcher"], charging_search_type="nearest_shortest_queue")
+    if case.get("global_overrides"):
+        spec = dict(spec)
+        spec["global"] = dict(spec.get("global") or {}, **case["global_overrides"])
     ctx.spec = spec
     # one scenario directory per worker process, rewritten for every case: successive simulations in a process then
     # read different contents from identical file paths (a user editing a scenario in place between runs), which is
